@@ -978,7 +978,7 @@ func GenProg(t *rapid.T, pf Profile) *Prog {
 			}
 			it.Methods = append(it.Methods, m)
 		}
-		if pf.Hooks && pf.ExtStructs && k == 0 && rapid.IntRange(0, 5).Draw(t, "aliasedHook") == 0 {
+		if pf.Hooks && pf.ExtStructs && k == 0 && rapid.IntRange(0, 2).Draw(t, "aliasedHook") == 0 {
 			m := Method{Name: fmt.Sprintf("Convert%02dAliasedHook", mi), SrcType: "ext.Inner", DstType: "ext.Inner2", SrcPtr: true, DstPtr: true}
 			mi++
 			hk := rapid.SampledFrom([]string{"hooksv2.Finalize", "hooks.Finalize", "DotFinalize"}).Draw(t, "aliasedHookFn")
